@@ -14,6 +14,10 @@ pub fn generate(prop: &str, thorough: bool, seed: u64, w: W) -> std::io::Result<
         "C04" => c04(&mut r, thorough, w),
         "C05" => c05(&mut r, thorough, w),
         "C13" => c13(&mut r, thorough, w),
+        "C10" => c10(&mut r, thorough, w),
+        "C09" => c09(&mut r, thorough, w),
+        "C07" => c07(&mut r, thorough, w, "READ"),
+        "C08" => c07(&mut r, thorough, w, "AREAD"),
         "C15" => c15(&mut r, thorough, w),
         "C16" => c16(&mut r, thorough, w),
         "C14" => c14(&mut r, thorough, w),
@@ -641,6 +645,251 @@ fn c13(r: &mut Rng, thorough: bool, w: W) -> std::io::Result<()> {
             line.push_str(&p_type_info(t));
         }
         writeln!(w, "{} {}", line, hex(&d))?;
+    }
+    Ok(())
+}
+
+use crate::reader::{p_steps, Step};
+
+fn schedule(r: &mut Rng, len: usize) -> Vec<Step> {
+    match r.below(7) {
+        0 => vec![],
+        1 => (0..len + 2).map(|_| Step::Chunk(1)).collect(),
+        2 => {
+            // random chunk sizes
+            let n = r.below(len as u64 / 2 + 3) as usize;
+            (0..n).map(|_| Step::Chunk(r.range(1, 40) as usize)).collect()
+        }
+        3 => {
+            // bursts of stalls between chunks
+            let n = r.below(30) as usize + 1;
+            let mut v = vec![];
+            for _ in 0..n {
+                for _ in 0..r.below(4) {
+                    v.push(Step::Stall);
+                }
+                v.push(Step::Chunk(r.range(1, 25) as usize));
+            }
+            v
+        }
+        4 => {
+            // chunk boundaries inside the 4-byte header: 1..3 bytes, then the rest
+            let mut v = vec![];
+            for _ in 0..r.below(12) + 1 {
+                v.push(Step::Chunk(r.range(1, 3) as usize));
+                if r.flip() {
+                    v.push(Step::Stall);
+                }
+                v.push(Step::Chunk(r.range(1, 300) as usize));
+            }
+            v
+        }
+        5 => (0..r.below(10)).map(|_| Step::Stall).collect(),
+        _ => {
+            let n = r.below(60) as usize;
+            (0..n)
+                .map(|_| if r.chance(1, 4) { Step::Stall } else { Step::Chunk(r.range(0, 70000) as usize) })
+                .collect()
+        }
+    }
+}
+
+fn c07(r: &mut Rng, thorough: bool, w: W, op: &str) -> std::io::Result<()> {
+    let n = if thorough { 120_000 } else { 2_500 };
+    let ids = vec!["A".to_string(), "ABC".to_string(), "x".to_string()];
+    // hostile length fields first (the defect repaired in read.rs / stream.rs)
+    for len in 0u8..6 {
+        for storage in [false, true] {
+            let mut v = vec![];
+            if storage {
+                v.extend_from_slice(&[0x44, 0x4c, 0x54, 0x01, 1, 2, 3, 4, 5, 6, 7, 8, b'E', b'C', b'U', 0]);
+            }
+            v.extend_from_slice(&[0x00, 0x07, 0x00, len, 9, 9, 9, 9, 9]);
+            writeln!(w, "{} {} - 0 {}", op, p_bool(storage), hex(&v))?;
+            writeln!(w, "{} {} - 3 c1 s c2 {}", op, p_bool(storage), hex(&v))?;
+        }
+    }
+    for i in 0..n {
+        let storage = r.flip();
+        let k = r.below(6) as usize;
+        let mut v = vec![];
+        for _ in 0..k {
+            let m = message(r, &MsgOpts { storage: Some(storage), big: i % 300 == 0, max_args: 4 });
+            let mut b = enc(&m);
+            if r.chance(1, 12) {
+                b = mutate(r, &b, storage);
+            }
+            v.extend(b);
+        }
+        match r.below(8) {
+            0 => {
+                // truncation at an arbitrary offset
+                let c = r.below(v.len() as u64 + 1) as usize;
+                v.truncate(c);
+            }
+            1 => v.extend(noise(r)),
+            2 => {
+                // hostile LEN somewhere
+                if v.len() > 8 {
+                    let base = if storage { 16 } else { 0 };
+                    if v.len() > base + 4 {
+                        v[base + 2] = 0;
+                        v[base + 3] = r.below(4) as u8;
+                    }
+                }
+            }
+            3 => {
+                if v.len() > 4 {
+                    let base = if storage { 16 } else { 0 };
+                    if v.len() > base + 4 {
+                        v[base + 2] = 0xff;
+                        v[base + 3] = 0xff;
+                    }
+                }
+            }
+            _ => {}
+        }
+        let f = if r.chance(1, 4) { Some(filter(r, &ids)) } else { None };
+        let sched = schedule(r, v.len());
+        writeln!(
+            w,
+            "{} {} {} {} {}",
+            op,
+            p_bool(storage),
+            p_opt(&f, p_filter),
+            p_steps(&sched),
+            hex(&v)
+        )?;
+    }
+    Ok(())
+}
+
+/// random merge expression (postfix) over `k` parts: random order, random tree shape,
+/// optionally starting from `StatisticInfo::new()`
+fn merge_tree(r: &mut Rng, k: usize) -> Vec<String> {
+    let mut order: Vec<usize> = (0..k).collect();
+    for i in (1..k).rev() {
+        let j = r.below(i as u64 + 1) as usize;
+        order.swap(i, j);
+    }
+    let mut toks: Vec<String> = vec![];
+    let mut depth = 0usize;
+    if k == 0 || r.chance(1, 3) {
+        toks.push("n".to_string());
+        depth += 1;
+    }
+    let mut it = order.into_iter().peekable();
+    while it.peek().is_some() || depth > 1 {
+        let can_push = it.peek().is_some();
+        let can_merge = depth >= 2;
+        if can_push && (!can_merge || r.flip()) {
+            toks.push(it.next().unwrap().to_string());
+            depth += 1;
+        } else {
+            toks.push("m".to_string());
+            depth -= 1;
+        }
+    }
+    toks
+}
+
+fn c10(r: &mut Rng, thorough: bool, w: W) -> std::io::Result<()> {
+    let n = if thorough { 150_000 } else { 3_000 };
+    let alphabet = ["", "A", "B", "AB", "ECU", "ECU1", "é"];
+    for i in 0..n {
+        let storage = r.flip();
+        let count = match r.below(10) {
+            0 => 0,
+            1 => 1,
+            _ => r.below(if thorough && i % 50 == 0 { 60 } else { 14 }) as usize,
+        };
+        let mut lens_msgs: Vec<usize> = vec![];
+        let mut bytes: Vec<u8> = vec![];
+        for _ in 0..count {
+            let mut m = message(r, &MsgOpts { storage: Some(storage), big: false, max_args: 2 });
+            // small id alphabet to force collisions
+            if let Some(e) = m.header.ecu_id.as_mut() {
+                *e = r.pick(&alphabet).to_string();
+            }
+            if let Some(eh) = m.extended_header.as_mut() {
+                eh.application_id = r.pick(&alphabet).to_string();
+                eh.context_id = r.pick(&alphabet).to_string();
+            }
+            let b = enc(&m);
+            lens_msgs.push(b.len());
+            bytes.extend(b);
+        }
+        if r.chance(1, 40) && !bytes.is_empty() {
+            // a malformed stream: both sides must refuse (ERR), nothing is concluded
+            let c = r.below(bytes.len() as u64) as usize;
+            bytes[c] ^= 0x5a;
+        }
+        // split at message boundaries into k parts
+        let k = if count == 0 { r.below(2) as usize } else { r.range(1, count.min(5) as u64) as usize };
+        let mut cuts: Vec<usize> = (0..k.saturating_sub(1)).map(|_| r.below(count as u64 + 1) as usize).collect();
+        cuts.sort();
+        let mut lens: Vec<usize> = vec![];
+        let mut prev = 0usize;
+        for c in cuts.iter().chain(std::iter::once(&count)) {
+            lens.push(lens_msgs[prev..*c].iter().sum());
+            prev = *c;
+        }
+        if k == 0 {
+            lens.clear();
+        }
+        let tree = merge_tree(r, lens.len());
+        writeln!(
+            w,
+            "STATS {} {} {} {} {} {}",
+            p_bool(storage),
+            lens.len(),
+            lens.iter().map(|x| x.to_string()).collect::<Vec<_>>().join(" "),
+            tree.len(),
+            tree.join(" "),
+            hex(&bytes)
+        )?;
+    }
+    Ok(())
+}
+
+fn c09(r: &mut Rng, thorough: bool, w: W) -> std::io::Result<()> {
+    let n = if thorough { 600_000 } else { 12_000 };
+    let alphabet = ["", "A", "B", "AB", "ECU", "ECU1", "é", "x"];
+    for i in 0..n {
+        let storage = r.flip();
+        let mut m = message(r, &MsgOpts { storage: Some(storage), big: false, max_args: 3 });
+        if let Some(e) = m.header.ecu_id.as_mut() {
+            *e = r.pick(&alphabet).to_string();
+        }
+        if let Some(eh) = m.extended_header.as_mut() {
+            eh.application_id = r.pick(&alphabet).to_string();
+            eh.context_id = r.pick(&alphabet).to_string();
+            if r.chance(1, 2) {
+                // all level codes incl. invalid ones
+                eh.message_type = MessageType::Log(log_level(r));
+            }
+        }
+        let mut bytes = enc(&m);
+        if i % 25 == 0 {
+            bytes = mutate(r, &bytes, storage);
+        }
+        bytes.extend(suffix(r));
+        let ids: Vec<String> = alphabet.iter().map(|s| s.to_string()).collect();
+        let mut f = filter(r, &ids);
+        if r.chance(1, 4) {
+            // duplicates in the id vectors, counts around the number of distinct entries
+            if let Some(v) = f.app_ids.as_mut() {
+                let extra: Vec<String> = v.clone();
+                v.extend(extra);
+                f.app_id_count = v.len() as i64 / 2 + r.range(0, 2) as i64 - 1;
+            }
+            if let Some(v) = f.context_ids.as_mut() {
+                if let Some(x) = v.first().cloned() {
+                    v.push(x);
+                }
+            }
+        }
+        writeln!(w, "FILT {} {} {}", p_bool(storage), p_filter(&f), hex(&bytes))?;
     }
     Ok(())
 }
